@@ -294,6 +294,17 @@ def alt_case(rng):
             insts.append({'kind': 'alt', 'alts': [(f, idx[ty]) for f, (_t, ty) in zip(flags, alts)],
                           'want': idx[chosen], 'want_valid': want,
                           'xml': '<doc%s><e%s>%s</e></doc>' % (' k="%s"' % dock if dock else '', attrs, content)})
+        # xsi:type together with the type table: the selected alternative is the governing declared type, so the instance
+        # type must be derived from it (the A_* types are unrelated to each other; all derive from the declared xs:anyType)
+        if rng.random() < 0.35:
+            for xt in types:
+                for content_ty in (xt, types[(types.index(xt) + 1) % 3]):
+                    want = (chosen is None or chosen == xt) and content_ty == xt
+                    attrs = ''.join(' %s="%s"' % (a, v) for a, v in (('k', kv), ('d', d), ('n', n)) if v is not None)
+                    insts.append({'kind': 'alt', 'alts': [(f, idx[ty]) for f, (_t, ty) in zip(flags, alts)],
+                                  'want': idx[chosen], 'want_valid': want, 'xsi': xt,
+                                  'xml': '<doc %s%s><e%s xsi:type="%s">%s</e></doc>'
+                                         % (XSI, ' k="%s"' % dock if dock else '', attrs, xt.replace('xs:', 'A_'), good[content_ty])})
     if inherit:
         # the inheritable attribute on an intermediate element: it is inherited by that element's descendants only, not
         # by the elements that follow it
@@ -378,6 +389,7 @@ def evaluate(ctx, cases):
         if kind == 'alt':
             ctx.dist('alternative tests', 'a test ends in a dynamic error' if any(f == 'err' for f, _t in inst.get('alts', []))
                      else 'all tests evaluate')
+            ctx.dist('alternative with xsi:type', 'xsi' in inst)
         if o['valid'] != want:
             ctx.violation('%s [%s, XSD %s]: implementation says %s, the %s rules say %s; errors %s'
                           % (inst['xml'], kind, c['version'], 'valid' if o['valid'] else 'invalid',
